@@ -73,7 +73,7 @@ type sut struct {
 	forTCP   bool
 	shapeTCP bool // the chain is made of network filters (build tcp), not HTTP filters
 	// CUSTOM action: extension providers defined in the mesh config, multi-provider feature flag
-	providers []string
+	providers []provSpec
 	multi     bool
 	proxyType model.NodeType
 	// NewBuilderForService: the service the chain is built for; nil = none
@@ -115,6 +115,32 @@ func (s *sut) lastRule() *authpb.Rule {
 		return nil
 	}
 	return p.Spec.Rules[len(p.Spec.Rules)-1]
+}
+
+// provSpec: one extensionProviders entry of the mesh config (envoyExtAuthzGrpc / envoyExtAuthzHttp).
+type provSpec struct {
+	name, service, status, pathPrefix string
+	http, failOpen                    bool
+	port                              uint32
+}
+
+// parseProv reads one provider token of the `custom` op: name|grpc/http|service|port|failopen|status|prefix,
+// or (older corpus files) a bare name, `http:`-prefixed for the HTTP kind, with the default service and port.
+func parseProv(t string) provSpec {
+	if q := strings.Split(t, "|"); len(q) == 7 {
+		port, _ := strconv.ParseUint(q[3], 10, 32)
+		return provSpec{name: q[0], http: q[1] == "http", service: q[2], port: uint32(port), failOpen: q[4] == "1", status: q[5], pathPrefix: q[6]}
+	}
+	return provSpec{name: strings.TrimPrefix(t, "http:"), http: strings.HasPrefix(t, "http:"),
+		service: "foo/my-custom-ext-authz.foo.svc.cluster.local", port: 9000}
+}
+
+// registry: the service index the harness registers (hostname, namespace).
+var registry = [][2]string{
+	{"my-custom-ext-authz.foo.svc.cluster.local", "foo"},
+	{"authz.foo.svc.cluster.local", "foo"},
+	{"authz2.bar.svc.cluster.local", "bar"},
+	{"ext.example.com", "foo"}, {"ext.example.com", "bar"},
 }
 
 type svcInfo struct {
@@ -211,18 +237,18 @@ func (s *sut) valid() bool {
 // PolicyMatcherForProxy + ListAuthorizationPolicies + ShouldAttachPolicy, builder.New).
 func (s *sut) newBuilders(useAuth bool) [2]*authzplugin.Builder {
 	mesh := &meshconfig.MeshConfig{TrustDomain: s.bundle[0], TrustDomainAliases: s.bundle[1:], RootNamespace: s.rootNS}
-	for _, name := range s.providers {
-		ep := &meshconfig.MeshConfig_ExtensionProvider{Name: strings.TrimPrefix(name, "http:")}
-		if strings.HasPrefix(name, "http:") {
+	for _, p := range s.providers {
+		ep := &meshconfig.MeshConfig_ExtensionProvider{Name: p.name}
+		if p.http {
 			ep.Provider = &meshconfig.MeshConfig_ExtensionProvider_EnvoyExtAuthzHttp{
 				EnvoyExtAuthzHttp: &meshconfig.MeshConfig_ExtensionProvider_EnvoyExternalAuthorizationHttpProvider{
-					Service: "foo/my-custom-ext-authz.foo.svc.cluster.local", Port: 9000,
+					Service: p.service, Port: p.port, FailOpen: p.failOpen, StatusOnError: p.status, PathPrefix: p.pathPrefix,
 				},
 			}
 		} else {
 			ep.Provider = &meshconfig.MeshConfig_ExtensionProvider_EnvoyExtAuthzGrpc{
 				EnvoyExtAuthzGrpc: &meshconfig.MeshConfig_ExtensionProvider_EnvoyExternalAuthorizationGrpcProvider{
-					Service: "foo/my-custom-ext-authz.foo.svc.cluster.local", Port: 9000,
+					Service: p.service, Port: p.port, FailOpen: p.failOpen, StatusOnError: p.status,
 				},
 			}
 		}
@@ -241,8 +267,13 @@ func (s *sut) newBuilders(useAuth bool) [2]*authzplugin.Builder {
 	}
 	env := &model.Environment{ConfigStore: store, Watcher: meshwatcher.NewTestWatcher(mesh)}
 	push := &model.PushContext{AuthzPolicies: model.GetAuthorizationPolicies(env), Mesh: mesh}
-	push.ServiceIndex.HostnameAndNamespace = map[host.Name]map[string]*model.Service{
-		"my-custom-ext-authz.foo.svc.cluster.local": {"foo": &model.Service{Hostname: "my-custom-ext-authz.foo.svc.cluster.local"}},
+	push.ServiceIndex.HostnameAndNamespace = map[host.Name]map[string]*model.Service{}
+	for _, e := range registry {
+		h := host.Name(e[0])
+		if push.ServiceIndex.HostnameAndNamespace[h] == nil {
+			push.ServiceIndex.HostnameAndNamespace[h] = map[string]*model.Service{}
+		}
+		push.ServiceIndex.HostnameAndNamespace[h][e[1]] = &model.Service{Hostname: h}
 	}
 	proxy := &model.Proxy{Type: s.proxyType, ConfigNamespace: s.wlNS, Labels: s.wlLabels, Metadata: &model.NodeMetadata{}}
 	features.EnableMultipleCustomAuthzProviders = s.multi
@@ -354,7 +385,10 @@ func (s *sut) apply(f []string) (out string) {
 		}
 		return "ok"
 	case "custom":
-		s.providers, s.multi = wire.DecList(f[1]), f[2] == "1"
+		s.providers, s.multi = nil, f[2] == "1"
+		for _, t := range wire.DecList(f[1]) {
+			s.providers = append(s.providers, parseProv(t))
+		}
 		return "ok"
 	case "pol":
 		p := model.AuthorizationPolicy{Namespace: wire.Dec(f[2]), Name: wire.Dec(f[3]), Annotations: map[string]string{},
@@ -367,7 +401,9 @@ func (s *sut) apply(f []string) (out string) {
 			p.Spec.ActionDetail = &authpb.AuthorizationPolicy_Provider{Provider: &authpb.AuthorizationPolicy_ExtensionProvider{Name: prov}}
 		}
 		if len(f) > 6 {
-			if l := wire.DecList(f[6]); len(l) > 0 {
+			if f[6] == "%7B%7D" {
+				p.Spec.Selector = &typepb.WorkloadSelector{} // `selector: {}`: non-nil, no labels (selects everything)
+			} else if l := wire.DecList(f[6]); len(l) > 0 {
 				p.Spec.Selector = &typepb.WorkloadSelector{MatchLabels: map[string]string{}}
 				for _, e := range l {
 					k, v := kv(e)
